@@ -45,16 +45,41 @@ def units(tier):
     rng = random.Random(seed())
     specs = [s for s in gen.enum_grammars(2, 2, 3, 2, allow_cyclic=False)][:: (5 if tier == "quick" else 1)]
     specs += [s for s in gen.enum_grammars(3, 1, 4, 2, allow_cyclic=False)][:: (60 if tier == "quick" else 6)]
-    for i in range(60 if tier == "quick" else 800):
-        s = gen.random_grammar(rng, max_nt=4, allow_cyclic=False)
-        if s and len(s.nonterminals()) >= 2:
+    fixed = random.Random(20260928)
+    for i in range(400 if tier == "quick" else 3000):
+        s = gen.random_grammar(fixed if i % 2 else rng, max_nt=5, allow_cyclic=False)
+        if s and len(s.nonterminals()) >= (2 if i % 4 == 0 else 4):
             specs.append(s)
-    return [{"specs": [s.to_json() for s in ch], "seed": seed() * 1000 + i, "maxtok": 4 if tier == "quick" else 5}
-            for i, ch in enumerate(chunks(specs, 24))]
+    us = [{"specs": [s.to_json() for s in ch], "seed": seed() * 1000 + i, "maxtok": 4 if tier == "quick" else 5}
+          for i, ch in enumerate(chunks(specs, 24))]
+    lay = layered_specs()[:: (2 if tier == "quick" else 1)]
+    us += [{"specs": [s.to_json() for s in ch], "layered": True, "seed": seed() * 1000 + 500 + i,
+            "maxtok": 4 if tier == "quick" else 5} for i, ch in enumerate(chunks(lay, 18))]
+    return us
 
 
-def modularise(spec, rng):
-    """Returns (files: {name: text}, flattened spec, features, override_on_second_path)."""
+def layered_specs():
+    """Deterministic family: a leaf file with an entry rule B and a helper rule C it uses, reached through
+    an intermediate file that may override the helper (root -> fa -> fb), optionally also imported by root."""
+    import itertools
+    terms = {"a": ("str", "a"), "b": ("str", "b"), "c": ("str", "c")}
+    S_ALTS = [[["A", "a"]], [["a", "A"], ["b"]], [["A"], ["A", "B"]], [["A", "C"]]]
+    A_ALTS = [[["B"]], [["B", "b"], ["a"]], [["b", "B", "C"]]]
+    B_ALTS = [[["C", "a"]], [["C"], ["B", "c", "C"]], [["a", "C", "C"]]]
+    C_ALTS = [[["c"]], [["b"], ["c", "C"]], [[], ["c"]]]
+    out = []
+    for sa, aa, ba, ca in itertools.product(S_ALTS, A_ALTS, B_ALTS, C_ALTS):
+        rules = [("S", r) for r in sa] + [("A", r) for r in aa] + [("B", r) for r in ba] + [("C", r) for r in ca]
+        sp = gen.GSpec(rules, dict(terms))
+        sp.force = {"home": {"S": "root", "A": "fa", "B": "fb", "C": "fb"}}
+        out.append(sp)
+    return out
+
+
+def modularise(spec, rng, force=None):
+    """Returns (files: {name: text}, documented flattening, predicted flattening under the recorded
+    finding F-IMP-1, features, deviates) where `deviates` says that some reference resolves, by the
+    first-import-path rule, to something else than the documentation promises."""
     nts = spec.nonterminals()
     k = rng.randint(2, min(4, len(nts)))
     # partition: root holds the start symbol
@@ -62,6 +87,8 @@ def modularise(spec, rng):
     others = FILES[1:k]
     for i, n in enumerate(nts[1:]):
         home[n] = others[i] if i < len(others) else rng.choice(FILES[:k])
+    if force:
+        home = dict(force["home"])
     used_files = sorted(set(home.values()), key=FILES.index)
     rules_of = {f: [(l, r) for l, r in spec.rules if home[l] == f] for f in used_files}
     needs = {f: [] for f in used_files}
@@ -78,7 +105,10 @@ def modularise(spec, rng):
             if g_ != f and g_ not in imports[f] and g_ != "root" and rng.random() < 0.3:
                 imports[f].append(g_)
                 feats.add("extra-import")
-    # is there a cycle / diamond?
+    if rng.random() < 0.3:
+        for f in used_files:
+            rng.shuffle(imports[f])
+
     def reach(a, seen=None):
         seen = seen or set()
         for b in imports[a]:
@@ -92,8 +122,6 @@ def modularise(spec, rng):
     if any(v >= 2 for v in indeg.values()):
         feats.add("diamond")
 
-    path_users = set()     # nonterminals referred to through a longer import path somewhere
-
     def ref(f, x):
         """How file f refers to nonterminal x."""
         g_ = home[x]
@@ -103,64 +131,126 @@ def modularise(spec, rng):
         for h in imports[f]:
             if h != g_ and g_ in imports.get(h, []) and rng.random() < 0.4:
                 feats.add("path-reference")
-                path_users.add(x)
                 return "%s.%s.%s" % (h, g_, x)
         return "%s.%s" % (g_, x)
 
-    # optional override: root redefines a rule of a directly imported file
+    # file contents: per file a list of (lhs key, [("t", terminal) | ("r", reference text, nonterminal)])
+    content = {f: [] for f in used_files}
+    for f in used_files:
+        for l, r in rules_of[f]:
+            content[f].append((l, [("t", x) if x in spec.terms else ("r", ref(f, x), x) for x in r]))
+    # optional override: some file redefines a rule of a file it imports directly
     override = None
-    second_path = False
-    cands = [n for n in nts[1:] if home[n] in imports["root"]]
-    if cands and rng.random() < 0.25:
-        n = rng.choice(cands)
-        new_rhs = [[t for t in list(spec.terms)[:1]]]
-        override = (n, new_rhs)
-        feats.add("override")
-        # F-IMP-1: an override takes effect only for references whose qualified name ALONG THE FIRST IMPORT
-        # PATH equals the override's name. That excludes (a) users in a third file, (b) the overridden
-        # file's own rules when that file was first reached through another import of root.
-        tgt = home[n]
-        first_via_other = False
-        for h in imports["root"]:
-            if h == tgt:
-                break
-            if tgt in reach(h):
-                first_via_other = True
-        for f in used_files:
-            if f == "root":
+    if rng.random() < (0.7 if force else 0.35):
+        where = [f for f in used_files if f in reach("root") or f == "root"]
+        rng.shuffle(where)
+        for F in where:
+            if F == "root" and rng.random() < 0.5:
                 continue
-            uses = any(n in r for l, r in rules_of[f])
-            if uses and (f != tgt or first_via_other):
-                second_path = True
+            cands = [n for n in nts[1:] if home[n] in imports[F] and home[n] != F]
+            # prefer rules that their own file uses too: those users must get the new rule as well
+            local = [n for n in cands if any(n in r for l, r in rules_of[home[n]])]
+            if local and rng.random() < 0.7:
+                cands = local
+            if cands:
+                n = rng.choice(cands)
+                override = (F, home[n], n, [list(spec.terms)[:1]])
+                feats.add("override")
+                if F != "root":
+                    feats.add("override-in-imported-file")
+                for rhs in override[3]:
+                    content[F].append(("%s.%s" % (home[n], n), [("t", t) for t in rhs]))
+                break
     files = {}
     for f in used_files:
         lines = ["import '%s.pg' as %s;" % (g_, g_) for g_ in imports[f]]
         by = {}
-        for l, r in rules_of[f]:
-            by.setdefault(l, []).append(" ".join(("'%s'" % spec.terms[x][1]) if x in spec.terms else ref(f, x)
-                                                 for x in r) or "EMPTY")
+        for l, items in content[f]:
+            by.setdefault(l, []).append(" ".join(("'%s'" % spec.terms[it[1]][1]) if it[0] == "t" else it[1]
+                                                 for it in items) or "EMPTY")
         for l, alts in by.items():
             lines.append("%s: %s;" % (l, " | ".join(alts)))
-        if f == "root" and override:
-            n, rhss = override
-            lines.append("%s.%s: %s;" % (home[n], n, " | ".join(" ".join("'%s'" % spec.terms[t][1] for t in rhs) or "EMPTY"
-                                                               for rhs in rhss)))
         files[f + ".pg"] = "\n".join(lines) + "\n"
-    if override and override[0] in path_users:
-        second_path = True     # some reference reaches the overridden rule by another qualified name
-    # flattened
+
+    # documented flattening: the override replaces the rule for every user
     flat_rules = []
     for l, r in spec.rules:
-        if override and l == override[0]:
+        if override and l == override[2]:
             continue
         flat_rules.append((l, list(r)))
     if override:
-        n, rhss = override
+        n, rhss = override[2], override[3]
         idx = next(i for i, (l, _) in enumerate(spec.rules) if l == n)
         for rhs in rhss:
             flat_rules.insert(min(idx, len(flat_rules)), (n, list(rhs)))
     flat = gen.GSpec(flat_rules, dict(spec.terms))
-    return files, flat, feats, second_path
+
+    # predicted flattening under F-IMP-1: files are loaded depth first in import-statement order, a symbol's
+    # qualified name follows the FIRST import path of its file, and a reference is resolved from the root
+    # down that name: at each file on the way the remaining suffix is looked up among the file's own rule
+    # names (which include its overrides `x.N`)
+    first = {"root": []}
+
+    def load(f):
+        for h in imports[f]:
+            if h not in first:
+                first[h] = first[f] + [h]
+                load(h)
+    load("root")
+    defs = {f: set(l for l, _ in content[f]) for f in used_files}
+
+    def resolve(u, text):
+        parts = first[u] + text.split(".")
+        cur = "root"
+        while True:
+            key = ".".join(parts)
+            if key in defs[cur]:
+                return (cur, key)
+            if len(parts) == 1 or parts[0] not in imports[cur]:
+                return None
+            cur, parts = parts[0], parts[1:]
+
+    def sym(fk):
+        f, key = fk
+        return key if "." not in key else key.split(".")[-1] + "_ov_" + f
+    deviates = False
+    act_rules = []
+    unresolved = False
+    used_syms = set(("root", l) for l, _ in content["root"])
+    for f in used_files:
+        if f not in first:
+            continue
+        for l, items in content[f]:
+            rhs = []
+            for it in items:
+                if it[0] == "t":
+                    rhs.append(it[1])
+                else:
+                    r_ = resolve(f, it[1])
+                    if r_ is None:
+                        unresolved = True
+                        rhs.append(it[2])
+                        continue
+                    rhs.append(sym(r_))
+                    used_syms.add(r_)
+                    if override and it[2] == override[2] and "." not in r_[1]:
+                        deviates = True        # a user of the overridden rule still gets the old rule
+            act_rules.append((sym((f, l)), rhs))
+    # Grammar._add_resolve_all_production_symbols registers nonterminals by qualified name: when the old
+    # rule and its override are both in use and share the qualified name, one of them loses its
+    # productions (dead nonterminal or KeyError in table construction). Same root cause; not predicted
+    # exactly: any deviation of such a grammar is attributed to the finding.
+    fqns = {}
+    for fk in used_syms:
+        if fk[0] in first:
+            fqns.setdefault(".".join(first[fk[0]] + [fk[1]]), set()).add(fk)
+    if any(len(v) > 1 for v in fqns.values()):
+        feats.add("override-fqn-collision")
+    # root's first rule is the start rule
+    start = content["root"][0][0]
+    act_rules.sort(key=lambda lr: 0 if lr[0] == start else 1)
+    flat_act = gen.GSpec(act_rules, dict(spec.terms)) if not unresolved else None
+    return files, flat, flat_act, feats, deviates
 
 
 def observe(p, text):
@@ -181,9 +271,24 @@ def observe(p, text):
         return ("timeout",)
 
 
+def n_reachable(flat):
+    reach_nt = {flat.rules[0][0]}
+    changed = True
+    while changed:
+        changed = False
+        for l, r in flat.rules:
+            if l in reach_nt:
+                for x in r:
+                    if x not in flat.terms and x not in reach_nt:
+                        reach_nt.add(x)
+                        changed = True
+    return 1 + sum(1 for l, r in flat.rules if l in reach_nt)
+
+
 def run_unit(u):
     res = {"evaluations": 0, "nontrivial": [], "samples": [], "violations": [], "disagreements": [],
-           "stats": {"modular_grammars": 0, "features": {}, "comparisons": 0, "build_errors": {}}}
+           "stats": {"modular_grammars": 0, "features": {}, "comparisons": 0, "build_errors": {},
+                     "override_deviations_predicted": 0, "ignore_case": 0}}
     rng = random.Random(u["seed"])
     st = res["stats"]
     for sj in u["specs"]:
@@ -191,70 +296,85 @@ def run_unit(u):
         if len(spec.nonterminals()) < 2:
             continue
         for variant in range(2):
-            files, flat, feats, second_path = modularise(spec, rng)
+            files, flat, flat_act, feats, deviates = modularise(
+                spec, rng, force={"home": {"S": "root", "A": "fa", "B": "fb", "C": "fb"}} if u.get("layered") else None)
+            ic = rng.random() < 0.25
             d = tempfile.mkdtemp(prefix="pgverif-c20-")
             try:
                 for name, text in files.items():
                     open(os.path.join(d, name), "w").write(text)
-                case0 = {"files": files, "flattened": flat.text(), "features": sorted(feats)}
-                try:
-                    gm = Grammar.from_file(os.path.join(d, "root.pg"))
-                except Exception as e:
-                    v = {"kind": "modular-grammar-rejected", "case": case0,
-                         "observed": type(e).__name__ + ": " + str(e)[:120]}
-                    if second_path:
+                case0 = {"files": files, "flattened": flat.text(), "features": sorted(feats), "ignore_case": ic}
+
+                def report(v):
+                    """A deviation is the recorded finding only where the first-import-path rule predicts it."""
+                    if deviates and (v.pop("_as_predicted", False) or "override-fqn-collision" in feats):
                         v["attribution"] = "override-not-on-user-path"
+                    v.pop("_as_predicted", None)
                     res["violations"].append(v)
+                try:
+                    gm = Grammar.from_file(os.path.join(d, "root.pg"), ignore_case=ic)
+                except Exception as e:
+                    report({"kind": "modular-grammar-rejected", "case": case0,
+                            "observed": type(e).__name__ + ": " + str(e)[:120], "_as_predicted": True})
                     continue
                 try:
-                    gf = Grammar.from_string(flat.text())
+                    gf = Grammar.from_string(flat.text(), ignore_case=ic)
+                    ga = Grammar.from_string(flat_act.text(), ignore_case=ic) if (deviates and flat_act) else None
                 except Exception as e:
                     bump(st["build_errors"], type(e).__name__)
                     continue
                 st["modular_grammars"] += 1
+                if deviates:
+                    st["override_deviations_predicted"] += 1
+                if ic:
+                    st["ignore_case"] += 1
                 for f in feats:
                     bump(st["features"], f)
                 # parglare keeps only the rules reachable from the start rule of the root file
-                reach_nt = {flat.rules[0][0]}
-                changed = True
-                while changed:
-                    changed = False
-                    for l, r in flat.rules:
-                        if l in reach_nt:
-                            for x in r:
-                                if x not in flat.terms and x not in reach_nt:
-                                    reach_nt.add(x)
-                                    changed = True
-                n_reach = 1 + sum(1 for l, r in flat.rules if l in reach_nt)
-                if "override" not in feats and len(gm.productions) != n_reach:
+                n_doc = n_reachable(flat)
+                n_act = n_reachable(flat_act) if flat_act else None
+                res["evaluations"] += 1
+                if "override" not in feats and len(gm.productions) != n_doc:
                     v = {"kind": "number-of-productions-differs-from-flattened", "case": case0,
-                         "observed": len(gm.productions), "expected": n_reach}
-                    if second_path:
-                        v["attribution"] = "override-not-on-user-path"
-                    res["violations"].append(v)
-                    continue
+                         "observed": len(gm.productions), "expected": n_doc,
+                         "_as_predicted": n_act is not None and len(gm.productions) == n_act}
+                    report(v)
+                    if not v.get("attribution"):
+                        continue
                 inputs = list(gen.token_strings(spec, u["maxtok"]))[:80]
+                if ic:
+                    inputs = inputs[:50] + [t.upper() for t in inputs[:30]]
                 for kind in ("GLR", "LR"):
                     for f in os.listdir(d):
                         if f.endswith(".pgc"):
                             os.remove(os.path.join(d, f))      # another kind's cache (finding F-CACHE-1)
+
+                    def mk(gr):
+                        try:
+                            return GLRParser(gr) if kind == "GLR" else Parser(gr)
+                        except (SRConflicts, RRConflicts) as e:
+                            return type(e).__name__
                     try:
-                        pf = GLRParser(gf) if kind == "GLR" else Parser(gf)
-                    except (SRConflicts, RRConflicts):
-                        continue
+                        pf = mk(gf)
+                        pa = mk(ga) if ga is not None else None
                     except Exception as e:
                         bump(st["build_errors"], type(e).__name__)
                         continue
                     try:
-                        pm = GLRParser(gm) if kind == "GLR" else Parser(gm)
-                    except (SRConflicts, RRConflicts):
-                        continue
+                        pm = mk(gm)
                     except Exception as e:
-                        v = {"kind": "parser-construction-fails-on-modular-grammar", "case": dict(case0, parser=kind),
-                             "observed": type(e).__name__ + ": " + str(e)[:100]}
-                        if second_path:
-                            v["attribution"] = "override-not-on-user-path"
-                        res["violations"].append(v)
+                        # where the first-import-path rule leaves the overriding or the overridden rule without
+                        # users, table construction trips over the orphan (same root cause as F-IMP-1)
+                        report({"kind": "parser-construction-fails-on-modular-grammar", "case": dict(case0, parser=kind),
+                                "observed": type(e).__name__ + ": " + str(e)[:100], "_as_predicted": True})
+                        continue
+                    if isinstance(pm, str) or isinstance(pf, str):
+                        res["evaluations"] += 1
+                        if isinstance(pm, str) != isinstance(pf, str):
+                            report({"kind": "conflict-status-differs-from-flattened", "case": dict(case0, parser=kind),
+                                    "observed": pm if isinstance(pm, str) else "builds",
+                                    "expected": pf if isinstance(pf, str) else "builds",
+                                    "_as_predicted": pa is not None and isinstance(pa, str) == isinstance(pm, str)})
                         continue
                     for text in inputs:
                         case = dict(case0, parser=kind, input=text)
@@ -262,11 +382,9 @@ def run_unit(u):
                         res["evaluations"] += 1
                         st["comparisons"] += 1
                         if a != b and "timeout" not in (a[0], b[0]):
-                            v = {"kind": "modular-grammar-differs-from-flattened", "case": case,
-                                 "observed": list(a), "expected": list(b)}
-                            if second_path:
-                                v["attribution"] = "override-not-on-user-path"
-                            res["violations"].append(v)
+                            c = observe(pa, text) if (pa is not None and not isinstance(pa, str)) else None
+                            report({"kind": "modular-grammar-differs-from-flattened", "case": case,
+                                    "observed": list(a), "expected": list(b), "_as_predicted": c == a})
                             break
                         if feats:
                             res["nontrivial"].append(h16([files, kind, text]))
